@@ -230,6 +230,19 @@ def _log_tail(root, n=1500):
         return ''
 
 
+def _emulate_exit(fw):
+    """A real interpreter finalises the process-wide writer when it exits (DeferredFileWriter.__del__ -> close()); the forked
+    children of this module leave through os._exit, so that call is made explicitly before the directory is recorded.
+    (Real process exits are observed on the bin/martinize2 subprocesses of c07.gate_start.)"""
+    w = fw.DeferredFileWriter()
+    d = getattr(type(w), '__del__', None)
+    if d is not None:
+        try:
+            d(w)
+        except Exception:      # noqa: an exception in __del__ is printed and ignored by the interpreter
+            traceback.print_exc()
+
+
 def _b2s(snap):
     return {k: v.decode('latin-1') for k, v in snap.items()}
 
@@ -393,7 +406,7 @@ def cli_child(sc, root, resfile):
     rec = Recorder(work)
     mod = cli_c03.load_cli()
     rec.install()
-    state = {'role': None, 'wrote': False, 'prims': [], 'counts': None, 'above': 0, 'gate_snap': None, 'crashes': [],
+    state = {'role': None, 'wrote': False, 'prims': [], 'counts': None, 'above': 0, 'gate_snap': None, 'crashes': [], 'variants': [],
              'same_singleton': mod.DeferredFileWriter() is fw.DeferredFileWriter()
              and getattr(fw.DeferredFileWriter().open, '__self__', None) is fw.DeferredFileWriter()}
     pre = tree(work)
@@ -410,41 +423,67 @@ def cli_child(sc, root, resfile):
 
     real_write = fw.DeferredFileWriter.write
 
+    def crash_points(self, tag, saved_work, saved_tmp):
+        """One forked child per (k, exception kind), k = 0, 1, ... until a child completes; the directory and the
+        temporary files are restored after each child.  Returns (crash records, record of the completing child)."""
+        crashes, k = [], 0
+        while k < 60:
+            for exc in EXCS:
+                out = os.path.join(resd, 'crash_%s_%d_%s.json' % (tag, k, exc))
+                pid = os.fork()
+                if pid == 0:
+                    state['role'] = (k, exc, out)
+                    faults.log, faults.active, faults.halt_after = [], True, k
+                    faults.make_exc = _exc_factory(exc, c07._Halt)
+                    try:
+                        return None, real_write(self)
+                    finally:
+                        faults.active = False
+                os.waitpid(pid, 0)
+                try:
+                    with open(out) as fh:
+                        r = json.load(fh)
+                    os.remove(out)
+                except (OSError, ValueError):
+                    r = {'k': k, 'exc': exc, 'lost': True}
+                restore(work, saved_work)
+                restore(tmpd, saved_tmp)
+                if r.get('completed'):
+                    return crashes, r
+                crashes.append(r)
+            k += 1
+        return crashes, None
+
     def write(self):
         state['wrote'] = True
         if state['gate_snap'] is None:
             state['gate_snap'] = tree(work)
         if sc.get('faults') and state['role'] is None:
             saved_work, saved_tmp = tree(work), tree(tmpd)
-            k = 0
-            while k < 60:
-                completed = False
-                for exc in EXCS:
-                    out = os.path.join(resd, 'crash_%d_%s.json' % (k, exc))
-                    pid = os.fork()
-                    if pid == 0:
-                        state['role'] = (k, exc, out)
-                        faults.log, faults.active, faults.halt_after = [], True, k
-                        faults.make_exc = _exc_factory(exc, c07._Halt)
-                        try:
-                            return real_write(self)
-                        finally:
-                            faults.active = False
-                    os.waitpid(pid, 0)
-                    try:
-                        with open(out) as fh:
-                            r = json.load(fh)
-                    except (OSError, ValueError):
-                        r = {'k': k, 'exc': exc, 'lost': True}
-                    restore(work, saved_work)
-                    restore(tmpd, saved_tmp)
-                    if r.get('completed'):
-                        completed = True
-                        break
-                    state['crashes'].append(r)
-                if completed:
-                    break
-                k += 1
+            got = crash_points(self, 'main', saved_work, saved_tmp)
+            if state['role'] is not None:
+                return got[1]
+            state['crashes'] = got[0]
+            # the same pending table against OTHER directories: files and backups that appeared / vanished while the run
+            # was in progress (finalisation only looks at the directory when it runs)
+            dests = sorted({op['d'] for op in rec.ops})
+            for v in range(sc.get('variants', 0)):
+                vdir = dict(saved_work)
+                for d in dests:
+                    for n in range(0, 8):
+                        vdir.pop(backup_name(d, n), None)
+                    if d == 'in.pdb':
+                        vdir[d] = saved_work[d]
+                    exists, slots = pre_pattern('mix', rng)
+                    for n in ([0] if exists else []) + list(slots):
+                        vdir.setdefault(backup_name(d, n), ('variant %d of %s generation %d\nsecond line\n' % (v, d, n)).encode())
+                restore(work, vdir)
+                got = crash_points(self, 'v%d' % v, vdir, saved_tmp)
+                if state['role'] is not None:
+                    return got[1]
+                state['variants'].append({'pre': vdir, 'crashes': got[0], 'complete': got[1]})
+            restore(work, saved_work)
+            restore(tmpd, saved_tmp)
         faults.log, faults.active, faults.halt_after = [], True, None
         try:
             return real_write(self)
@@ -464,11 +503,12 @@ def cli_child(sc, root, resfile):
         rc, err = -1, '%s: %s' % (type(e).__name__, str(e)[:200])
     sys.stdout.flush()
     sys.stderr.flush()
+    _emulate_exit(fw)
     if state['role'] is not None:       # a crash-point child: report what is left behind and vanish
         k, exc, out = state['role']
         with open(out, 'w') as fh:
             json.dump({'k': k, 'exc': exc, 'prims': list(faults.log), 'snap': _b2s(tree(work)), 'err': err, 'rc': rc,
-                       'completed': err == ''}, fh)
+                       'completed': err == '', 'tmpleft': len(tree(tmpd))}, fh)
         os._exit(0)
     post = tree(work)
     meta = {'argv': ' '.join(argv), 'rc': rc, 'err': err, 'same_singleton': state['same_singleton'],
@@ -483,14 +523,15 @@ def cli_child(sc, root, resfile):
         steps.append({'op': 'open', 'd': op['d'], 'mode': op['mode'], 'data': b''.join(op['chunks']), 'snap': None})
     if steps:
         steps[-1]['snap'] = state['gate_snap']
-    lost = [c for c in state['crashes'] if c.get('lost')]
+    lost = [c for c in state['crashes'] if c.get('lost')] + [c for v in state['variants'] for c in v['crashes'] if c.get('lost')] + \
+        [v for v in state['variants'] if v['complete'] is None]
     if lost:
         meta['err'] = 'crash children without a report: %s' % lost
         with open(resfile, 'w') as fh:
             json.dump({'event': None, 'meta': meta}, fh)
         return
     gate = {'op': 'gate', 'counts': state['counts'] or {'none': 0}, 'above': state['above'], 'specs': specs_of(sc['maxwarn']),
-            'exit': rc, 'wrote': state['wrote'], 'halt': -1, 'prims': state['prims'], 'bad': [],
+            'exit': rc, 'wrote': state['wrote'], 'halt': -1, 'prims': state['prims'], 'bad': [], 'tmpleft': len(meta['tmp_left']),
             'crashes': [{'k': c['k'], 'exc': c['exc'], 'prims': c['prims'], 'snap': _s2b(c['snap'])} for c in state['crashes']],
             'snap': post}
     dests = {s['d'] for s in steps}
@@ -498,12 +539,20 @@ def cli_child(sc, root, resfile):
     check_tokenisable(pre, steps)
     eb = EventBuilder()
     event = eb.build(pre, steps + [gate], dests, exempt)
+    extra_events = []
+    for v in state['variants']:
+        c = v['complete']
+        vgate = dict(gate, exit=c['rc'], prims=c['prims'], snap=_s2b(c['snap']), tmpleft=c.get('tmpleft', 0),
+                     crashes=[{'k': x['k'], 'exc': x['exc'], 'prims': x['prims'], 'snap': _s2b(x['snap'])} for x in v['crashes']])
+        vsteps = [dict(st, snap=None) for st in steps]
+        check_tokenisable(v['pre'], vsteps)
+        extra_events.append(EventBuilder().build(v['pre'], vsteps + [vgate], dests, exempt))
     meta['ndest'] = len(dests)
     meta['npre_dest'] = sum(1 for d in dests if d in pre)
     meta['dests'] = sorted(dests)
     meta['opens'] = [[s['d'], s['mode'], len(s['data'])] for s in steps]
     with open(resfile, 'w') as fh:
-        json.dump({'event': event, 'meta': meta}, fh)
+        json.dump({'event': event, 'more_events': extra_events, 'meta': meta}, fh)
 
 
 # ------------------------------------------------------------------------------------------------ family lib
@@ -556,7 +605,7 @@ def lib_child(sc, root, resfile):
                 os.chdir(os.path.join(work, op[1]))
             elif op[0] == 'discard':
                 writer.close()
-                steps.append({'op': 'discard', 'snap': tree(work)})
+                steps.append({'op': 'discard', 'snap': tree(work), 'tmpleft': len(tree(tmpd))})
             elif op[0] == 'finalise':
                 fault = op[1]
                 faults.log, faults.active = [], True
@@ -578,7 +627,7 @@ def lib_child(sc, root, resfile):
                 finally:
                     faults.active = False
                 step = {'op': 'finalise', 'halt': fault[0] if halted else -1, 'prims': list(faults.log), 'bad': list(sc.get('bad', ())),
-                        'crashes': [], 'snap': tree(work), 'raised': raised}
+                        'crashes': [], 'snap': tree(work), 'raised': raised, 'tmpleft': len(tree(tmpd))}
                 if fault is not None and not halted:
                     # k was beyond the primitives of this finalisation: it simply completed
                     step['halt'] = -1
@@ -647,7 +696,7 @@ def cli_scenarios(tier, seed):
     out = []
 
     def add(chains='P', n_alt=0, gen=False, ffwarn=False, mw='none', paths='rel', pre='mix', dumps=(), dumps_pre=False,
-            extra=(), faults=False, top=True):
+            extra=(), faults=False, top=True, variants=0):
         opts = list(BASE) + list(extra)
         if gen:
             opts = [o for o in opts if o != '-noscfix'] + ['-scfix']
@@ -655,16 +704,17 @@ def cli_scenarios(tier, seed):
         if mw in ('left-typeonly',) and (n_alt == 0 or not (gen or ffwarn)):
             raise ValueError('left-typeonly needs two warning types')
         sc = {'fam': 'cli', 'chains': chains, 'n_alt': n_alt, 'opts': opts, 'ffwarn': ffwarn, 'paths': paths, 'pre': pre,
-              'dumps': list(dumps), 'dumps_pre': dumps_pre, 'faults': faults, 'top': top, 'mwkind': mw,
+              'dumps': list(dumps), 'dumps_pre': dumps_pre, 'faults': faults, 'top': top, 'mwkind': mw, 'variants': variants,
               'maxwarn': maxwarn_for(mw, n_alt, 1 if gen else 0, n_model), 'seed': rng.randrange(1 << 30)}
         sc['expect_left'] = mw.startswith('left')
         out.append(sc)
 
-    # --- the fixed core (quick and thorough): every warning situation x path style x directory class at least once
-    add(mw='none', paths='rel', pre='gap', faults=True)
+    # --- the fixed core (quick and thorough): every warning situation x path style x directory class at least once;
+    # 16 runs (one per worker process), 8 of them with every crash point
+    add(mw='none', paths='rel', pre='gap', dumps=('graph',), faults=True)
     add(n_alt=2, mw='left-none', paths='rel', pre='b1', dumps=('graph',))
-    add(n_alt=2, mw='number', paths='abs', pre='gap', faults=True)
-    add(n_alt=1, mw='type', paths='sub', pre='hole1', faults=True)
+    add(n_alt=2, mw='number', paths='abs', pre='gap', faults=True, variants=1)
+    add(n_alt=1, mw='type', paths='sub', pre='hole1', faults=True, variants=1)
     add(n_alt=3, mw='typecount', paths='dots', pre='mix', dumps=('graph', 'repair', 'canon'), dumps_pre=True)
     add(n_alt=3, mw='left-typecount', paths='abs', pre='files', dumps=('repair',), dumps_pre=True)
     add(n_alt=2, gen=True, mw='left-typeonly', paths='rel', pre='gap')
@@ -673,17 +723,15 @@ def cli_scenarios(tier, seed):
     add(n_alt=2, mw='left-number', paths='xin', pre='b1')
     add(chains='PS', n_alt=1, mw='type', paths='rel', pre='gap', faults=True)
     add(chains='PP', extra=('-sep',), mw='none', paths='oabs', pre='mix', faults=True)
-    add(chains='S', extra=('-go', '-go-write-file', 'contacts.out'), mw='number', n_alt=1, paths='rel', pre='gap',
-        faults=True)
+    add(chains='S', extra=('-go', '-go-write-file', 'contacts.out'), mw='number', n_alt=1, paths='rel', pre='gap', faults=True)
     add(chains='S', extra=('-go',), mw='left-wrongtype', n_alt=1, paths='sub', pre='b1', dumps=('canon',))
-    add(ffwarn=True, mw='typecount', paths='rel', pre='hole1')
-    add(ffwarn=True, n_alt=1, mw='left-typeonly', paths='dots', pre='files')
-    add(n_alt=0, mw='none', paths='xitp', pre='b1', faults=True)
-    add(n_alt=1, mw='number', paths='absin', pre='orphan', top=False, faults=True)
-    add(n_alt=0, mw='none', paths='rel', pre='none', dumps=('graph',))
-    add(n_alt=1, mw='left-none', paths='same', pre='gap')
+    add(ffwarn=True, mw='typecount', paths='xitp', pre='hole1')
+    add(ffwarn=True, n_alt=1, mw='left-typeonly', paths='same', pre='files')
     if tier == 'quick':
         return out
+    add(n_alt=1, mw='number', paths='absin', pre='orphan', top=False, faults=True)
+    add(n_alt=1, mw='left-none', paths='same', pre='gap')
+    add(n_alt=0, mw='none', paths='xitp', pre='b1', faults=True)
     # --- thorough: the product, sampled
     mw_ok = ['none', 'number', 'type', 'typecount', 'mixed']
     mw_left = ['left-none', 'left-number', 'left-typecount', 'left-wrongtype', 'left-typeonly']
@@ -712,7 +760,7 @@ def cli_scenarios(tier, seed):
         paths = rng.choice(['rel', 'abs', 'sub', 'dots', 'same', 'xin', 'xitp', 'oabs', 'absin'])
         add(chains=chains, n_alt=n_alt, gen=gen, ffwarn=ffw, mw=mw, paths=paths, pre=rng.choice(PRE_CLASSES + ('mix', 'gap')),
             dumps=dumps, dumps_pre=rng.random() < 0.5, extra=extra, faults=(not left) and rng.random() < 0.6,
-            top=rng.random() < 0.9)
+            top=rng.random() < 0.9, variants=rng.choice([0, 2, 3]))
         n += 1
     return out
 
@@ -913,44 +961,56 @@ def scenario_class(sc, meta, facts):
 def worker(idx, scenarios, scratch, outfile):
     """One worker process: runs its scenarios (each in a fresh fork), judges them with its own TLC, writes a summary."""
     summary = {'n': 0, 'events': 0, 'unjudged': [], 'violations': [], 'classes': collections.Counter(), 'crash_points': 0,
-               'primitives': 0, 'samples': [], 'tlc': [], 'nontrivial': [], 'not_singleton': 0, 'tmp_left': 0}
+               'primitives': 0, 'samples': [], 'tlc': [], 'nontrivial': [], 'not_singleton': 0, 'exact': 0, 'observed': 0}
     try:
+        import vermouth                      # noqa: imported once per worker, the forked children share the pages
+        import vermouth.file_writer, vermouth.pdb, vermouth.gmx.gro, vermouth.gmx.topology, vermouth.dssp.dssp   # noqa
+        import vermouth.rcsu.contact_map     # noqa
         results = []
         for j, sc in enumerate(scenarios):
             root = os.path.join(scratch, 'w%d_%d' % (idx, j))
             r = _run_child(sc['fam'], sc, root, 420)
             shutil.rmtree(root, ignore_errors=True)
             results.append((sc, r))
-        judged = [(sc, r) for sc, r in results if r.get('event')]
+        judged = []
         for sc, r in results:
-            if not r.get('event'):
+            if r.get('event'):
+                judged.append((sc, r, r['event'], False))
+                for e in r.get('more_events', ()):
+                    judged.append((sc, r, e, True))
+            else:
                 summary['unjudged'].append({'scenario': sc, 'err': r['meta'].get('err'), 'log': r['meta'].get('log', '')[-600:]})
         if judged:
-            events = []
-            for sc, r in judged:
-                events.append(r['event'])
             wd = os.path.join(scratch, 'judge%d' % idx)
-            res, verdicts = judge_events(events, wd)
+            res, verdicts = judge_events([j[2] for j in judged], wd)
             summary['tlc'].append({'distinct': res.distinct, 'generated': res.generated, 'wall': res.wall})
             shutil.rmtree(wd, ignore_errors=True)
-            for (sc, r), v in zip(judged, verdicts):
-                summary['n'] += 1
+            for (sc, r, _, variant), v in zip(judged, verdicts):
+                summary['n'] += 0 if variant else 1
                 summary['events'] += 1
                 facts = v['facts']
                 summary['crash_points'] += facts['crashes']
                 summary['primitives'] += facts['prims']
+                summary['exact'] += facts['exact']
+                summary['observed'] += facts['observed']
                 if not r['meta'].get('same_singleton', True):
                     summary['not_singleton'] += 1
-                for c in scenario_class(sc, r['meta'], facts):
-                    summary['classes'][c] += 1
-                summary['nontrivial'].append([sc['fam'], sc.get('name'), r['meta'].get('argv'), sc.get('pre'), r['meta'].get('opens', sc.get('ops'))])
+                if variant:
+                    summary['classes']['cli:directory-changed-during-the-run'] += 1
+                    if facts['highslot'] >= 2:
+                        summary['classes']['cli:backup-number-above-1'] += 1
+                else:
+                    for c in scenario_class(sc, r['meta'], facts):
+                        summary['classes'][c] += 1
+                summary['nontrivial'].append([sc['fam'], sc.get('name'), r['meta'].get('argv'), sc.get('pre'), variant and facts,
+                                              r['meta'].get('opens', sc.get('ops'))])
                 if sc['fam'] == 'cli' and sc.get('faults') and facts['left'] == 0 and facts['crashes'] != len(EXCS) * facts['prims']:
                     summary['unjudged'].append({'scenario': sc, 'err': 'crash points exercised %d, model has %d primitives x %d exceptions'
                                                 % (facts['crashes'], facts['prims'], len(EXCS)), 'log': ''})
                 if v['v'] != 'ok':
-                    summary['violations'].append({'scenario': sc, 'verdict': v['v'], 'argv': r['meta'].get('argv'),
-                                                  'log': r['meta'].get('log', '')[-500:]})
-                elif len(summary['samples']) < 2 and (facts['crashes'] or facts['left']):
+                    summary['violations'].append({'scenario': dict(sc, directory_variant=True) if variant else sc, 'verdict': v['v'],
+                                                  'argv': r['meta'].get('argv'), 'log': r['meta'].get('log', '')[-500:]})
+                elif len(summary['samples']) < 2 and (facts['crashes'] or facts['left']) and not variant:
                     summary['samples'].append({'scenario': {k: sc[k] for k in sc if k not in ('seed',)}, 'argv': r['meta'].get('argv'),
                                                'verdict': v['v'], 'facts': facts})
     except BaseException:      # noqa
@@ -985,7 +1045,7 @@ class Family:
 
     def collect(self, timeout):
         merged = {'n': 0, 'events': 0, 'unjudged': [], 'violations': [], 'classes': collections.Counter(), 'crash_points': 0,
-                  'primitives': 0, 'samples': [], 'tlc': [], 'nontrivial': [], 'not_singleton': 0}
+                  'primitives': 0, 'samples': [], 'tlc': [], 'nontrivial': [], 'not_singleton': 0, 'exact': 0, 'observed': 0}
         deadline = time.time() + timeout
         for p, out, share in self.procs:
             p.join(max(1, deadline - time.time()))
@@ -999,7 +1059,7 @@ class Family:
                 raise tlc.MachineryError('C07 command-line worker left no summary (exit %s)' % p.exitcode)
             if s.get('error'):
                 raise tlc.MachineryError('C07 command-line worker failed:\n%s' % s['error'])
-            for k in ('n', 'events', 'crash_points', 'primitives', 'not_singleton'):
+            for k in ('n', 'events', 'crash_points', 'primitives', 'not_singleton', 'exact', 'observed'):
                 merged[k] += s[k]
             for k in ('unjudged', 'violations', 'samples', 'tlc', 'nontrivial'):
                 merged[k] += s[k]
@@ -1017,9 +1077,130 @@ def _worker_main(idx, share, scratch, out):
         os._exit(0)
 
 
-REQUIRED_CLASSES = ['cli:refused', 'cli:waived', 'cli:clean', 'cli:refused-with-pre-existing-destinations', 'cli:refused-with-debug-dumps',
+REQUIRED_CLASSES = ['cli:directory-changed-during-the-run', 'cli:refused', 'cli:waived', 'cli:clean', 'cli:refused-with-pre-existing-destinations', 'cli:refused-with-debug-dumps',
                     'cli:backup-made', 'cli:backup-number-above-1', 'cli:crash-points', 'cli:one-path-opened-twice', 'cli:several-itps',
                     'cli:go-files', 'cli-mw:number', 'cli-mw:type', 'cli-mw:typecount', 'cli-mw:left-typeonly', 'cli-mw:left-typecount',
                     'cli-paths:abs', 'cli-paths:sub', 'cli-paths:same', 'cli-paths:xin', 'cli-paths:dots',
                     'lib:consecutive-finalisations', 'lib:both-modes-on-one-path', 'lib:unwritable-destination', 'lib:crash',
                     'lib:discard', 'lib:append', 'lib:backup-number-above-1', 'lib:spellings', 'lib:chdir', 'lib:write-onto-directory']
+
+
+# ------------------------------------------------------------------------------------------------ selftest / replay
+def _synthetic():
+    """A hand-made, correct history of one command-line run (structure and topology written over existing files, backups
+    1 and 3 of the structure exist, so the free number is 2) with its crash points - and tampered copies of it."""
+    P = lambda name, n=0: b'old %s %d\nmore\n' % (name.encode(), n)
+    pre = {'cg.pdb': P('cg.pdb'), '#cg.pdb.1#': P('cg.pdb', 1), '#cg.pdb.3#': P('cg.pdb', 3), 'sub/topol.top': P('topol.top'),
+           'in.pdb': b'ATOM\n', 'notes.txt': b'unrelated\n'}
+    top, pdb = b'[ system ]\ntitle\n', b'ATOM 1\nEND'
+    opens = [{'op': 'open', 'd': 'sub/topol.top', 'mode': 'w', 'data': top, 'snap': None},
+             {'op': 'open', 'd': 'cg.pdb', 'mode': 'w', 'data': pdb, 'snap': dict(pre)}]
+    s1 = dict(pre)
+    s1['sub/#topol.top.1#'] = s1.pop('sub/topol.top')
+    s2 = dict(s1, **{'sub/topol.top': top})
+    s3 = dict(s2)
+    s3['#cg.pdb.2#'] = s3.pop('cg.pdb')
+    s4 = dict(s3, **{'cg.pdb': pdb})
+    kinds = ['Backup', 'MoveTmp', 'Backup', 'MoveTmp']
+    crashes = [{'k': k, 'exc': 'halt', 'prims': kinds[:k], 'snap': s} for k, s in enumerate([pre, s1, s2, s3])]
+
+    def gate(counts, specs, exit_, wrote, snap, cr=(), halt=-1, prims=None):
+        return {'op': 'gate', 'counts': counts or {'none': 0}, 'above': 0, 'specs': specs, 'exit': exit_, 'wrote': wrote, 'halt': halt,
+                'prims': kinds if prims is None else prims, 'bad': [], 'crashes': list(cr), 'snap': snap, 'tmpleft': 0}
+
+    def ev(g, opens_=None, exempt=()):
+        return EventBuilder().build(pre, [dict(o) for o in (opens_ or opens)] + [g], {'cg.pdb', 'sub/topol.top'}, exempt)
+    waived = ({'pdb-alternate': 2}, [{'t': 'pdb-alternate', 'n': 2}])
+    cases = [('finalised run with every crash point', ev(gate(*waived, 0, True, s4, crashes)), 'ok'),
+             ('refused run', ev(gate({'pdb-alternate': 2}, [{'t': '*', 'n': 1}], 2, False, dict(pre), prims=[])), 'ok')]
+    t = dict(s4)
+    t['#cg.pdb.4#'] = t.pop('#cg.pdb.2#')
+    cases.append(('backup number = count + 1 instead of the first free one', ev(gate(*waived, 0, True, t)), 'first-free-backup-name'))
+    t = dict(s4)
+    del t['#cg.pdb.2#']
+    cases.append(('old file overwritten without backup', ev(gate(*waived, 0, True, t)), 'first-free-backup-name'))
+    cases.append(('destination holds something else', ev(gate(*waived, 0, True, dict(s4, **{'cg.pdb': pdb + b'\nEXTRA'}))), 'does-not-hold'))
+    cases.append(('unrelated file changed', ev(gate(*waived, 0, True, dict(s4, **{'notes.txt': b'changed\n'}))), 'unrelated-file-changed'))
+    cases.append(('temporary file left in the directory', ev(gate(*waived, 0, True, dict(s4, **{'tmpab12.pdb': pdb}))), 'unexpected-new-file'))
+    cases.append(('refused run wrote a file', ev(gate({'pdb-alternate': 2}, [], 2, False, dict(pre, **{'molecule_0.itp': b'x\n'}), prims=[])),
+                  'refused-run-touched'))
+    cases.append(('refused run with exit status 0', ev(gate({'pdb-alternate': 2}, [], 0, False, dict(pre), prims=[])), 'exit-0'))
+    cases.append(('type waived by name, another type left, finalised anyway',
+                  ev(gate({'pdb-alternate': 1, 'general': 1}, [{'t': 'pdb-alternate', 'n': -1000}], 2, True, s4)), 'although-warnings-were-left'))
+    cases.append(('all waived but refused', ev(gate(*waived, 2, False, dict(pre), prims=[])), 'waived-but-run-refused'))
+    bad_crash = [dict(c) for c in crashes]
+    lost = dict(s3)
+    del lost['#cg.pdb.2#']                   # tmp moved ... before the backup: at this crash point the old file is gone
+    bad_crash[3] = dict(bad_crash[3], snap=lost)
+    cases.append(('crash point at which the old file exists nowhere', ev(gate(*waived, 0, True, s4, bad_crash)), 'lost-by-interrupted'))
+    bad_crash = [dict(c) for c in crashes]
+    bad_crash[1] = dict(bad_crash[1], snap=dict(s2))
+    cases.append(('crash point one primitive too far (safe; only reported as not exactly the model)', ev(gate(*waived, 0, True, s4, bad_crash)), 'ok'))
+    half = dict(s1)
+    half['#cg.pdb.1#'] = P('cg.pdb')          # an existing backup overwritten half-way
+    bad_crash = [dict(c) for c in crashes]
+    bad_crash[2] = dict(bad_crash[2], snap=half)
+    cases.append(('crash point with an existing backup overwritten', ev(gate(*waived, 0, True, s4, bad_crash)), 'lost-by-interrupted'))
+    odd = dict(s2)
+    odd['#cg.pdb.5#'] = odd.pop('cg.pdb')     # safe by the letter, but no finalisation passes through it
+    bad_crash = [dict(c) for c in crashes]
+    bad_crash[3] = dict(bad_crash[3], snap=odd)
+    cases.append(('crash point with the old file under a backup number that is not the first free one', ev(gate(*waived, 0, True, s4, bad_crash)),
+                  'never-passes-through'))
+    touched = [dict(o) for o in opens]
+    touched[1]['snap'] = dict(pre, **{'cg.pdb': b''})
+    cases.append(('destination truncated at open time', ev(gate(*waived, 0, True, s4), touched), 'touched-before-finalisation'))
+    cases.append(('requested debug dump missing', ev(gate({'pdb-alternate': 2}, [], 2, False, dict(pre), prims=[]), exempt=['graph.pdb']),
+                  'debug-dump-missing'))
+    # a destination that cannot be written: the others may be finalised or untouched, never half-way / lost
+    fin = {'op': 'finalise', 'halt': -1, 'prims': [], 'bad': ['nodir/x.itp'], 'crashes': [], 'snap': dict(s2), 'tmpleft': 1}
+    g = gate({'pdb-alternate': 2}, [], 2, False, dict(pre), prims=[])
+    cases.append(('refused run that leaves its temporary files', ev(dict(g, tmpleft=3)), 'temporary-files'))
+    o3 = [dict(o) for o in opens[:1]] + [{'op': 'open', 'd': 'nodir/x.itp', 'mode': 'w', 'data': b'x\n', 'snap': None}, dict(opens[1])]
+    mk = lambda f: EventBuilder().build(pre, [dict(o) for o in o3] + [f], {'cg.pdb', 'sub/topol.top', 'nodir/x.itp'})
+    cases.append(('unwritable destination, queue stops there', mk(fin), 'ok'))
+    cases.append(('unwritable destination, queue goes on', mk(dict(fin, snap=dict(s4))), 'ok'))
+    cases.append(('unwritable destination, another one left without its old content', mk(dict(fin, snap={k: v for k, v in s2.items() if k != 'cg.pdb'})),
+                  'lost-by-failed'))
+    cases.append(('directory destination: content gone', {'kind': 'weak', 'pre': [1, 2, 3], 'post': [1, 3, 4]}, 'content-that-existed'))
+    cases.append(('directory destination: content kept', {'kind': 'weak', 'pre': [1, 2], 'post': [2, 1, 4]}, 'ok'))
+    return cases
+
+
+def selftest(seed, scratch):
+    """(1) hand-made histories: the correct ones are accepted, every tampered copy is rejected with the clause it breaks;
+    (2) a history recorded from the REAL singleton is accepted, the same recording with one field changed is rejected."""
+    cases = _synthetic()
+    sc = [s for s in lib_scenarios('quick', seed) if s['name'] == 'two-runs'][0]
+    r = _run_child('lib', sc, os.path.join(scratch, 'real'), 300)
+    if not r.get('event'):
+        raise tlc.MachineryError('selftest: recording failed: %s' % r['meta'])
+    real = r['event']
+    cases.append(('recorded history of the real singleton', real, 'ok'))
+    t = json.loads(json.dumps(real))
+    fin = [s for s in t['steps'] if s['op'] == 'finalise'][1]
+    i = t['names'].index('#a.itp.2#')
+    j = t['names'].index('#a.itp.1#')
+    fin['snap'][i], fin['snap'][j] = fin['snap'][j], fin['snap'][i]
+    cases.append(('the same recording with the two backups of a.itp exchanged', t, 'step'))
+    t = json.loads(json.dumps(real))
+    [s for s in t['steps'] if s['op'] == 'open'][2]['data'] = [9999]
+    cases.append(('the same recording with other data written in the second run', t, 'does-not-hold'))
+    res, verdicts = judge_events([c[1] for c in cases], os.path.join(scratch, 'judge'))
+    ok = True
+    for (label, _, want), v in zip(cases, verdicts):
+        good = (v['v'] == 'ok') if want == 'ok' else (v['v'] != 'ok' and want in v['v'])
+        ok = ok and good
+        print('  %-75s -> %s%s' % (label, v['v'], '' if good else '   UNEXPECTED (wanted %s)' % want))
+    return ok
+
+
+def replay(sc, scratch):
+    r = _run_child(sc['fam'], sc, os.path.join(scratch, 'replay'), 600)
+    print('meta:', {k: v for k, v in r['meta'].items() if k != 'log'})
+    if not r.get('event'):
+        print(r['meta'].get('log', '')[-1500:])
+        return 2
+    res, verdicts = judge_events([r['event']], os.path.join(scratch, 'judge'))
+    print('verdict of DeferredWriterJudge:', verdicts[0])
+    return 0 if verdicts[0]['v'] == 'ok' else 1
